@@ -17,6 +17,7 @@ from .compare import compare_paths, View, describe, Mismatch
 VERIF = os.path.dirname(os.path.dirname(os.path.abspath(__file__)))
 REPO_ROOT = os.environ.get('ONLSA_REPO', '/repo')
 KNOWN_FILE = os.path.join(VERIF, 'KNOWN_FINDINGS.txt')
+EVID_DIR = os.environ.get('ONLSA_EVIDENCE_DIR') or os.path.join(VERIF, 'evidence')
 
 
 class Finding:
@@ -140,7 +141,7 @@ class Ctx:
                 print('KNOWN-FINDING: property=%s %s [%s %s]' % (self.prop, fd.message, fd.rule, fd.construct))
             else:
                 new.append(fd)
-        replay_dir = os.path.join(VERIF, 'evidence', 'replay')
+        replay_dir = os.path.join(EVID_DIR, 'replay')
         os.makedirs(replay_dir, exist_ok=True)
         # remove stale replay files of this property
         for fn in os.listdir(replay_dir):
@@ -191,8 +192,8 @@ class Ctx:
             'violations': len(new),
         }
         ev['coverage'].update(self.stats)
-        os.makedirs(os.path.join(VERIF, 'evidence'), exist_ok=True)
-        with open(os.path.join(VERIF, 'evidence', self.prop + '.json'), 'w') as fh:
+        os.makedirs(EVID_DIR, exist_ok=True)
+        with open(os.path.join(EVID_DIR, self.prop + '.json'), 'w') as fh:
             json.dump(ev, fh, indent=1, default=str)
         print('%s %s: %d obligations, %d discharged, %d known findings, %d violations, %d rules, %.2fs' % (
             self.prop, self.tier, self.obligations, self.discharged, len([f for f in self.findings if f.known]),
